@@ -24,6 +24,8 @@ pub enum Op {
     /// absolute: the plan stores the delta to the previous absolute value of that thread
     CAbs(u64),
     GSet,
+    /// a second gauge moved by increments (positive) and decrements (negative) only
+    GAdd(i64),
     HRec,
     Flush,
 }
@@ -61,6 +63,7 @@ pub fn key_for(op: &Op) -> Option<Key> {
         Op::CInc2(_) => Some(Key::from_parts("c_inc", vec![Label::new("own", "2")])),
         Op::CAbs(_) => Some(Key::from_name("c_abs")),
         Op::GSet => Some(Key::from_parts("g_one", vec![Label::new("own", "1")])),
+        Op::GAdd(_) => Some(Key::from_name("g_acc")),
         Op::HRec => Some(Key::from_name("h_one")),
         Op::Flush => None,
     }
@@ -98,7 +101,14 @@ impl Scenario for C10Flush {
                                 Op::CInc(r.range(1, 9))
                             }
                         }
-                        6..=7 => Op::GSet,
+                        6 => Op::GSet,
+                        7 => {
+                            if r.chance(500) {
+                                Op::GSet
+                            } else {
+                                Op::GAdd(*r.pick(&[1i64, 2, 3, 5, -1, -2]))
+                            }
+                        }
                         _ => Op::HRec,
                     })
                     .collect(),
@@ -156,6 +166,14 @@ impl Scenario for C10Flush {
                             Op::GSet => {
                                 rec.register_gauge(&key, &MD).set(tag as f64);
                                 tag
+                            }
+                            Op::GAdd(d) => {
+                                if *d >= 0 {
+                                    rec.register_gauge(&key, &MD).increment(*d as f64);
+                                } else {
+                                    rec.register_gauge(&key, &MD).decrement(-*d as f64);
+                                }
+                                0
                             }
                             Op::HRec => {
                                 rec.register_histogram(&key, &MD).record(tag as f64);
@@ -293,7 +311,7 @@ pub fn check_flush_history(cfg: &Cfg, h: &[Ev], exact_tail: bool) -> Option<Viol
     for (fi, ms) in parsed.iter().enumerate() {
         for m in ms {
             let base = m.name.strip_prefix(pre).unwrap_or("<missing prefix>");
-            if !["c_inc", "c_abs", "g_one", "h_one"].contains(&base) {
+            if !["c_inc", "c_abs", "g_one", "g_acc", "h_one"].contains(&base) {
                 return violation("payload-name", format!("flush {}: unexpected metric name {:?} (prefix configured: {})", fi, m.name, cfg.prefix));
             }
             let mut want_tags: Vec<(String, Option<String>)> = vec![];
@@ -420,6 +438,24 @@ pub fn check_flush_history(cfg: &Cfg, h: &[Ev], exact_tail: bool) -> Option<Viol
             let valid = sets.iter().any(|x| x.value as f64 == got && x.inv < f.ret && !sets.iter().any(|w| x.ret < w.inv && w.ret < f.inv)) || (got == 0.0 && !sets.iter().any(|w| w.ret < f.inv));
             if !valid {
                 return violation("gauge-value", format!("flush {} sends g_one = {} which is not a value the gauge held during that flush", fi, got));
+            }
+        }
+    }
+    // ---- gauge moved by deltas: a flush shows the net of the adjustments applied so far, none lost
+    let adds: Vec<(&Ev, i64)> = h.iter().filter_map(|e| if let Op::GAdd(d) = e.op { Some((e, d)) } else { None }).collect();
+    for (fi, f) in flushes.iter().enumerate() {
+        let ms = get(fi, "g_acc");
+        let registered = adds.iter().any(|a| a.0.ret < f.inv);
+        if registered && ms.len() != 1 {
+            return violation("gauge-not-sent", format!("flush {} (steps {}..{}) carries {} messages for g_acc although it was registered before", fi, f.inv, f.ret, ms.len()));
+        }
+        for m in ms {
+            let got: f64 = m.values.first().and_then(|v| v.parse().ok()).unwrap_or(f64::NAN);
+            let done: i64 = adds.iter().filter(|a| a.0.ret < f.inv).map(|a| a.1).sum();
+            let lo = done + adds.iter().filter(|a| a.0.ret >= f.inv && a.0.inv < f.ret && a.1 < 0).map(|a| a.1).sum::<i64>();
+            let hi = done + adds.iter().filter(|a| a.0.ret >= f.inv && a.0.inv < f.ret && a.1 > 0).map(|a| a.1).sum::<i64>();
+            if !(got >= lo as f64 && got <= hi as f64) {
+                return violation("gauge-delta-lost", format!("flush {} (steps {}..{}) sends g_acc = {}; the adjustments completed before it net {} and with those in flight it can be {}..{} (adjustments (invoked, returned, delta): {:?})", fi, f.inv, f.ret, got, done, lo, hi, adds.iter().map(|a| (a.0.inv, a.0.ret, a.1)).collect::<Vec<_>>()));
             }
         }
     }
@@ -571,6 +607,14 @@ impl Scenario for C10Agent {
                         Op::GSet => {
                             rec.register_gauge(&key, &MD).set(tag as f64);
                             tag
+                        }
+                        Op::GAdd(d) => {
+                            if *d >= 0 {
+                                rec.register_gauge(&key, &MD).increment(*d as f64);
+                            } else {
+                                rec.register_gauge(&key, &MD).decrement(-*d as f64);
+                            }
+                            0
                         }
                         Op::HRec => {
                             rec.register_histogram(&key, &MD).record(tag as f64);
